@@ -58,7 +58,11 @@ def build_lines(fam, h='c0', route='faces', rng=None, new=True, attrs=False):
     if route in ('faces', 'shuffle'):
         for i, s in enumerate(order):
             d = '-'
-            if attrs:
+            if attrs and i % 4 == 2:
+                # an EMPTY dict object handed in by the caller (falsy, but still an object whose identity matters)
+                lines.append('dict D%s%d {}' % (h, i))
+                d = 'D%s%d' % (h, i)
+            elif attrs and i % 4 != 3:        # every fourth simplex gets no attributes at all
                 lines.append('dict D%s%d {1:%d}' % (h, i, len(s)))
                 d = 'D%s%d' % (h, i)
             if len(s) == 1:
